@@ -66,6 +66,12 @@ CHECKS = {
                      "perturbed ASLR, MALLOC_PERTURB_, environment size and build flavour with all emitted files compared; under permutations of the file list with the "
                      "per-type files compared; and through asn1c -E / -E -F print, re-parse, re-print (fixpoint) and, for generated modules, asn1c -P equality.",
                 note="Uninitialised-memory dependence is only seen if it changes output in the runs made; shipped files whose printed text is not re-accepted are listed findings (one per file and diagnostic)."),
+    "C11": dict(level="exploration", engine="compiler-monitor", ref="DESIGN.md 4/C11",
+                technique="differential monitor: exit status / diagnostic / output directory of the ASan-built asn1c against an independent executable model of the X.680 distinctness rules, over single-edit mutants",
+                text="Tag-structure modules under EXPLICIT/IMPLICIT/AUTOMATIC tagging with manual tags, reference chains and nested untagged CHOICEs are generated "
+                     "unambiguous by construction; every single-edit mutant (retag, untag, type swap, make-OPTIONAL, duplicate identifier, duplicate enumeration "
+                     "name/value, dangling reference) is judged by the model and by asn1c; acceptance must coincide, rejections must carry a diagnostic and write no file.",
+                note="Trusts vf/checks/c11faults.py:problems and vf/asn/model.py tag algebra; SEQUENCE extension markers, COMPONENTS OF, parameterised types not generated; mutants sampled (40/400 per base)."),
 }
 
 PENDING_REASON = "check not implemented yet (bring-up in progress; see DESIGN.md section 9)"
